@@ -152,9 +152,9 @@ def StableCommand (c : CommandStep) : Prop :=
   noEmptyPrimaryWithAlias c.key c.label c.rem ∧
   (∀ l, c.plugins = some l → ∀ p, some p ∈ l → JStable p.config) ∧
   (∀ m, c.matrix = some m → StableMatrix m) ∧
-  (∀ k, c.cache = some k → StableUMap k.rem ∧
-      -- a disabled cache is written as `false`: any other setting written next to `disabled: true` is not kept
-      (k.disabled = true → k.name = "" ∧ (k.paths.getD []) = [] ∧ k.size = "" ∧ (k.rem.getD []) = [])) ∧
+  -- (finding F18, settings written next to `cache: {disabled: true}` were dropped, was fixed in the code,
+  --  commit e8ce0ad: the side condition it had forced here was removed)
+  (∀ k, c.cache = some k → StableUMap k.rem) ∧
   StableUMap c.rem
 
 mutual
